@@ -1,6 +1,7 @@
 """C09 — elaboration and simulation are reproducible (structural necessary conditions)."""
 import ast
 from ..engine.core import AnalysisError, need
+from ..engine.symx import run_paths
 from ..engine.astutil import (const_str, const_int, dotted, unparse, pmatch, walk_no_nested, dump, names_in, last_name)
 from ..engine.settypes import SetInfo
 from ..engine.cfg import CFG
@@ -29,7 +30,7 @@ ASSUMPTIONS = ["CPython ast parses /repo's source as the interpreter would",
                "set-typedness is inferred locally (constructors, attributes initialised as sets, set-returning methods); "
                "dicts, SignalSet and SignalDict are insertion/identity ordered and not flagged",
                "the table of allowed unordered-iteration sites in sa/rules/c09.py (one reason each)"]
-MIN_INSTANCES = {"R-09a": 8, "R-09b": 18, "R-09c": 5}
+MIN_INSTANCES = {"R-09a": 8, "R-09b": 18, "R-09c": 5, "R-09d": 1}
 
 # (qualified function, iterated expression) -> why the iteration order cannot reach an output
 ALLOWED = {
@@ -247,6 +248,26 @@ def r09b(model, ctx):
                       f"{cname}.{attr} is mutated while running (in {sorted({s for s, _ in sites})}) but reset() does not "
                       f"re-initialise it{' to its initial value' if attr in reset_assign else ''}: a second run after "
                       f"Simulator.reset() starts from stale state", where)
+    # reset() re-initialises unconditionally: every path through it stores the same set of attributes (an early return for
+    # some kind of object leaves that object's state from the previous run)
+    for rel, cname in RESET_CLASSES:
+        fr_ = model.func(f"{rel}::{cname}.reset")
+        ps = [p for p in run_paths(fr_.body) if p.how != "raise"]
+        need(ps, f"{cname}.reset: no completing path")
+        sets_ = []
+        for p in ps:
+            st = set()
+            for e in p.effects:
+                if isinstance(e, ast.Assign):
+                    st |= {unparse(t) for t in e.targets if unparse(t).startswith("self.")}
+                elif isinstance(e, ast.Call):
+                    st.add(unparse(e.func) + "()")
+            sets_.append(st)
+        union = set().union(*sets_)
+        short = [sorted(union - st) for st in sets_ if union - st]
+        ctx.check(not short, R, f"{cname}.reset:all-paths", f"every path re-initialises {sorted(union)}",
+                  f"{cname}.reset() has a path that does not re-initialise {short[0] if short else ''}: the state of the previous "
+                  f"run survives Simulator.reset() for the objects taking that path", f"{rel}:{fr_.lineno}")
     # container resets reach the elements
     f = model.func(f"{PYSIM}::PySimEngine.reset")
     t = unparse(f)
@@ -279,6 +300,65 @@ def r09b(model, ctx):
     ok = "self._engine.reset()" in t and "self._running = False" in t
     ctx.check(ok, R, "Simulator.reset", "engine reset, running flag cleared", "Simulator.reset() must reset the engine",
               f"{CORE}:{f.lineno}")
+
+
+def _aliases_attrs(v):
+    """does the expression `v` evaluate (possibly) to the very dict object held in some `<obj>.attrs`?"""
+    if isinstance(v, ast.Attribute) and v.attr in ("attrs", "_attrs", "attributes"):
+        return isinstance(v.value, (ast.Name, ast.Attribute, ast.Subscript))
+    if isinstance(v, ast.BoolOp):
+        return any(_aliases_attrs(x) for x in v.values)
+    if isinstance(v, ast.IfExp):
+        return _aliases_attrs(v.body) or _aliases_attrs(v.orelse)
+    if isinstance(v, ast.Call) and isinstance(v.func, ast.Attribute) and v.func.attr in ("setdefault", "get") and len(v.args) == 2:
+        return _aliases_attrs(v.args[1])
+    return False
+
+
+def r09d(model, ctx):
+    """converting a design must not modify it: the attribute dictionaries of design objects (`signal.attrs`, ...) are
+    read, never written, by the netlist builder and the back end — a local that may alias such a dictionary (directly,
+    or as the default of setdefault()/get(), or through `or`) must not be updated in place.  Otherwise converting the
+    same design object twice gives different output."""
+    R = "R-09d"
+    n_sites = 0
+    for rel in (RTLIL, IR, XFRM):
+        m = model.mod(rel)
+        for fn in ast.walk(m.tree):
+            if not isinstance(fn, (ast.FunctionDef, ast.AsyncFunctionDef)):
+                continue
+            alias = {}
+            for st in ast.walk(fn):
+                if isinstance(st, ast.Assign) and len(st.targets) == 1 and isinstance(st.targets[0], ast.Name):
+                    n_sites += 1
+                    if _aliases_attrs(st.value):
+                        alias[st.targets[0].id] = st
+            # direct in-place writes to <obj>.attrs of something that is not `self`
+            for x in ast.walk(fn):
+                tgt = None
+                if isinstance(x, ast.Call) and isinstance(x.func, ast.Attribute) and x.func.attr in ("update", "setdefault", "pop", "clear", "popitem"):
+                    tgt = x.func.value
+                elif isinstance(x, (ast.Assign, ast.AugAssign)):
+                    ts = x.targets if isinstance(x, ast.Assign) else [x.target]
+                    for t in ts:
+                        if isinstance(t, ast.Subscript):
+                            tgt = t.value
+                elif isinstance(x, ast.Delete):
+                    for t in x.targets:
+                        if isinstance(t, ast.Subscript):
+                            tgt = t.value
+                if tgt is None:
+                    continue
+                bad = None
+                if isinstance(tgt, ast.Name) and tgt.id in alias:
+                    bad = f"`{tgt.id}` (bound by `{unparse(alias[tgt.id])}`) may be the design object's own attribute dictionary"
+                elif isinstance(tgt, ast.Attribute) and tgt.attr in ("attrs", "_attrs") and not (isinstance(tgt.value, ast.Name) and tgt.value.id == "self"):
+                    bad = f"`{unparse(tgt)}` is the design object's own attribute dictionary"
+                if bad is not None:
+                    ctx.viol(R, f"{m.qualname_of(fn)}:{unparse(tgt)}", f"{rel}: {m.qualname_of(fn)} modifies a dictionary in place and {bad}: "
+                             f"conversion would change the design, so converting the same object twice gives different output", f"{rel}:{x.lineno}")
+    need(n_sites >= 200, f"only {n_sites} local bindings inspected in the netlist builder / back end")
+    ctx.ok(R, "no-attrs-aliasing", f"{n_sites} local bindings inspected: none that may alias <obj>.attrs is updated in place", f"{RTLIL}:0")
 
 
 def r09c(model, ctx):
@@ -346,4 +426,4 @@ def r09c(model, ctx):
         ctx.check(not bad, R, f"{q}:no-clock/random", "no clock or random source", f"{q} calls {bad}", f"{RUN}:{fn.lineno}")
 
 
-RULES = [("R-09a", r09a), ("R-09b", r09b), ("R-09c", r09c)]
+RULES = [("R-09a", r09a), ("R-09b", r09b), ("R-09c", r09c), ("R-09d", r09d)]
